@@ -74,7 +74,7 @@ func c10Run(ctx *core.Ctx) {
 		}
 		for rep := 0; rep < nrep; rep++ {
 			for _, pre := range []string{"fresh", "greeted", "authed", "mail", "rcpt", "bdat"} {
-				for _, inj := range []string{"", "MAIL", "ENVELOPE", "GARBAGE"} {
+				for _, inj := range []string{"", "MAIL", "ENVELOPE", "GARBAGE", "LONGRUN"} {
 					for _, same := range []bool{true, false} {
 						for _, lm := range []bool{false, true} {
 							if rep > 0 && !ctx.Thorough() && inj == "" {
@@ -204,6 +204,10 @@ func c10Srv(ctx *core.Ctx, c c10Case) {
 		inject = hello + " injected.test\r\nMAIL FROM:<inject-1@x.test>\r\nRCPT TO:<inject-2@x.test>\r\nDATA\r\ninjected-body\r\n.\r\n"
 	case "GARBAGE":
 		inject = "\x00\x01garbage without line end"
+	case "LONGRUN":
+		// nearly a full line of plaintext without a line end: it is discarded with the rest of the
+		// plaintext buffer and must not count towards the first line of the TLS session
+		inject = strings.Repeat("j", 1900)
 	}
 	mark := rig.Log.Len()
 	if c.SameSeg {
@@ -226,8 +230,14 @@ func c10Srv(ctx *core.Ctx, c c10Case) {
 	if upgraded {
 		p.Raw.WaitPeerIdle(wire.Watchdog)
 		// probes inside TLS
-		if r := cmd("MAIL FROM:<tls-early@x.test>"); r.Class() == 2 {
+		early := "MAIL FROM:<tls-early@x.test>"
+		if c.Inject == "LONGRUN" {
+			early = "MAIL FROM:<tls-early-" + strings.Repeat("e", 150) + "@x.test>"
+		}
+		if r := cmd(early); r.Class() == 2 {
 			fail("C10:greeting-remembered", fmt.Sprintf("MAIL inside TLS before a new greeting answered %s", r))
+		} else if r.Code == 0 || (r.Code == 500 && strings.Contains(r.Text(), "5.4.0")) {
+			fail("C10:plaintext-counted-inside-tls", fmt.Sprintf("the first command line of the TLS session (%d octets, limit 2000) answered %s: plaintext octets sent behind STARTTLS decide the fate of a TLS command", len(early)+2, r))
 		}
 		if r := cmd("RCPT TO:<tls-early-r@x.test>"); r.Class() == 2 && !failed {
 			fail("C10:envelope-remembered", fmt.Sprintf("RCPT inside TLS without MAIL answered %s", r))
